@@ -118,7 +118,7 @@ package raft
 //@    im.markerIndex == old(im.markerIndex) && len(im.entries) == len(old(im.entries)) && ptr(im.entries) == ptr(old(im.entries)) &&
 //@    im.appliedToIndex == old(im.appliedToIndex) && im.appliedToTerm == old(im.appliedToTerm)
 
-//@ func (im *inMemory) restore [C19 C02]
+//@ func (im *inMemory) restore [C19 C02 C08]
 //@ requires ss.Index < MaxUint64
 //@ modifies im.snapshot, im.markerIndex, im.appliedToIndex, im.appliedToTerm, im.shrunk, im.entries, im.savedTo
 //@ ensures im.valid()
